@@ -1,5 +1,6 @@
 //! dsim — whole-database simulation against a relational reference model.
 
+pub mod catcheck;
 pub mod exec;
 pub mod gen;
 pub mod model;
